@@ -238,12 +238,19 @@ func c07Exchange(addr string, raw []byte, halfClose bool) (r c07Resp) {
 	}
 	defer c.Close()
 	c.SetDeadline(time.Now().Add(c07IOTimeout))
-	if _, err := c.Write(raw); err != nil {
-		return
-	}
-	if halfClose {
-		c.(*net.TCPConn).CloseWrite()
-	}
+	// write concurrently with reading: the server may answer (413) and stop
+	// reading long before a large body has been written
+	wdone := make(chan struct{})
+	go func() {
+		defer close(wdone)
+		if _, err := c.Write(raw); err == nil && halfClose {
+			c.(*net.TCPConn).CloseWrite()
+		}
+	}()
+	defer func() {
+		c.Close()
+		<-wdone
+	}()
 	br := bufio.NewReader(c)
 	for {
 		h, ok := c07ReadHead(br)
